@@ -149,15 +149,18 @@ open Nima.Frag
 `Model/Cst.lean` (input: concrete-syntax trees with explicit gaps), `Model/FromCst.lean`
 (`NixSourceCode.from_cst`, `AttributeSet.from_cst`, `Binding.from_cst`, `NixList.from_cst`,
 `Parenthesis.from_cst`, `FunctionCall.from_cst`, `WithStatement.from_cst`, `Assertion.from_cst`,
-`Select.from_cst`, `FunctionDefinition.from_cst`, `UnaryExpression.from_cst`, `BinaryExpression.from_cst`, `parse_delimited_sequence`)
+`Select.from_cst`, `FunctionDefinition.from_cst`, `UnaryExpression.from_cst`, `BinaryExpression.from_cst`,
+`IfExpression.from_cst`, `HasAttrExpression.from_cst`, `parse_delimited_sequence`)
 and `Model/Rebuild.lean` (`rebuild` of the same classes, string level and piece level) model the parse
 side and the render side for files made of attribute sets with plain single-segment names, lists,
 parenthesised expressions `( e )`, function applications `f x` / `f x y`, `with e; body`,
-`assert e; body`, selects `e.a.b` / `e.a or d`, lambdas `x: body`, unary `!e` / `-e`, binary operators `a + b` (not `//` / `++` with the operator on a line of its own) and leaf
+`assert e; body`, selects `e.a.b` / `e.a or d`, lambdas `x: body`, unary `!e` / `-e`, binary operators `a + b` (not `//` / `++` with the operator on a line of its own),
+`if c then a else b`, has-attr `e ? a.b` and leaf
 values, nested to any depth, with
 arbitrary whitespace and line / one-line block comments in every gap (inside parentheses and between
 function and argument too; the three gaps of a `with` / `assert` itself — after the keyword and around
-its `;` —, the gaps around the `.` / `or` of a select and around the `:` of a lambda hold whitespace only:
+its `;` —, the gaps around the `.` / `or` of a select, around the `:` of a lambda, the five gaps of an `if` (around
+its condition, `then`, `else`) and the two around the `?` of a has-attr hold whitespace only:
 `Cst.wf`). The statements below are about EVERY such tree
 (structural induction), tied to the implementation by `fragment_correspondence`. -/
 
@@ -381,6 +384,20 @@ example : minusPathFile.flatten = "- ./p.nix\n".toList := by decide
 example : minusPathFile.roundtrip = .ok "-./p.nix\n".toList := by decide
 example : fusedPathFile.roundtrip = .ok "-./p.nix\n".toList := by decide
 example : minusPathFile.items.cf = false ∧ fusedPathFile.items.cf = true := by decide
+
+/-- `if a ? b.c then⏎  [ x ]⏎else { }`: `if` with a has-attr condition, the consequence on its own line -/
+def ifSample : File :=
+  { items := .elem []
+      (.ite [] " ".toList (.has (.leaf .ident "a".toList) [] " ".toList [] " ".toList ["b".toList, "c".toList])
+        [] " ".toList [] "\n  ".toList (.list (.elem " ".toList (.leaf .ident "x".toList) .nil) " ".toList)
+        [] "\n".toList [] " ".toList (.set false [] .nil " ".toList)) .nil,
+    endGap := [] }
+
+example : ifSample.flatten = "if a ? b.c then\n  [ x ]\nelse { }".toList := by decide
+example : ifSample.wf = true ∧ ifSample.noLeadingWs = true := by decide
+example : ifSample.codeTokens =
+    ["if", "a", "?", "b", ".", "c", "then", "[", "x", "]", "else", "{", "}"].map String.toList := by decide
+example : ifSample.roundtrip = .ok "if a ? b.c then\n  [ x ]\nelse { }".toList := by decide
 
 end Fragment
 
